@@ -53,3 +53,53 @@ V('C01', 'block-vector-of-headers', CORE, 'vtx = VectorSerializer.stream_deseria
 V('C01', 'witness-written-before-outputs', CORE, '            VectorSerializer.stream_serialize(CTxOut, self.vout, f)\n            self.wit.stream_serialize(f)',
   '            self.wit.stream_serialize(f)\n            VectorSerializer.stream_serialize(CTxOut, self.vout, f)', 'C01.L', scope='CTransaction.stream_serialize')
 V('C01', 'bytes-serializer-no-length', SER, 'VarIntSerializer.stream_serialize(len(b), f)\n        f.write(b)', 'f.write(b)', 'C01.L', scope='BytesSerializer.stream_serialize')
+
+# ------------------------------------------------------------------------------------------------ C04
+V('C04', 'revert-F1-locktime-signed', SCRIPT, 'f.write(struct.pack("<I", txTo.nLockTime))', 'f.write(struct.pack("<i", txTo.nLockTime))', 'C04.L1', scope='SignatureHash')
+V('C04', 'swap-hashSequence-hashOutputs', SCRIPT, 'f.write(hashSequence)', 'f.write(hashOutputs)', 'C04.L1', scope='SignatureHash')
+V('C04', 'hashSequence-guard-or', SCRIPT, "(hashtype & 0x1f) != SIGHASH_SINGLE and (hashtype & 0x1f) != SIGHASH_NONE):\n            serialize_sequence",
+  "(hashtype & 0x1f) != SIGHASH_SINGLE or (hashtype & 0x1f) != SIGHASH_NONE):\n            serialize_sequence", 'C04.D1', scope='SignatureHash')
+V('C04', 'amount-32bit', SCRIPT, 'f.write(struct.pack("<q", amount))', 'f.write(struct.pack("<i", amount))', 'C04.L1', scope='SignatureHash')
+V('C04', 'hashOutputs-mask-0x0f', SCRIPT, "if ((hashtype & 0x1f) != SIGHASH_SINGLE and (hashtype & 0x1f) != SIGHASH_NONE):\n            serialize_outputs",
+  "if ((hashtype & 0x0f) != SIGHASH_SINGLE and (hashtype & 0x0f) != SIGHASH_NONE):\n            serialize_outputs", 'C04.D1', scope='SignatureHash')
+V('C04', 'single-index-off-by-one', SCRIPT, 'inIdx < len(txTo.vout)', 'inIdx <= len(txTo.vout)', 'C04.D1', scope='SignatureHash')
+V('C04', 'outpoint-of-first-input', SCRIPT, 'txTo.vin[inIdx].prevout.stream_serialize(f)', 'txTo.vin[0].prevout.stream_serialize(f)', 'C04.L1', scope='SignatureHash')
+V('C04', 'sequences-16bit', SCRIPT, 'serialize_sequence += struct.pack("<I", i.nSequence)', 'serialize_sequence += struct.pack("<H", i.nSequence & 0xffff)', 'C04.D1', scope='SignatureHash')
+V('C04', 'prevouts-skip-anyonecanpay-test', SCRIPT, 'if not (hashtype & SIGHASH_ANYONECANPAY):\n            serialize_prevouts', 'if not (hashtype & SIGHASH_SINGLE):\n            serialize_prevouts', 'C04.D1', scope='SignatureHash')
+V('C04', 'writes-through-txTo', SCRIPT, '        f = BytesIO()\n        f.write(struct.pack("<i", txTo.nVersion))', '        f = BytesIO()\n        txTo.wit = None\n        f.write(struct.pack("<i", txTo.nVersion))', 'C04.RO', scope='SignatureHash')
+V('C04', 'single-sha', SER, 'return hashlib.sha256(hashlib.sha256(msg).digest()).digest()', 'return hashlib.sha256(msg).digest()', 'C04.H1', scope='Hash')
+V('C04', 'scriptcode-without-length', SCRIPT, 'BytesSerializer.stream_serialize(script, f)', 'f.write(script)', 'C04.L1', scope='SignatureHash')
+V('C04', 'rejects-zero-amount', SCRIPT, "        hashPrevouts = b'\\x00'*32", "        if not amount:\n            raise ValueError('amount required')\n        hashPrevouts = b'\\x00'*32", 'C04.X1', scope='SignatureHash')
+
+# ------------------------------------------------------------------------------------------------ C09
+V('C09', 'shallow-from_tx', CORE, 'vin = [CMutableTxIn.from_txin(txin) for txin in tx.vin]', 'vin = list(tx.vin)', 'C09.R6', scope='CMutableTransaction.from_tx')
+V('C09', 'txid-cache-on-transaction', CORE, "        if self.wit != CTxWitness():\n            txid = Hash(", "        try:\n            return self._cached_GetTxid\n        except AttributeError:\n            pass\n        if self.wit != CTxWitness():\n            txid = Hash(", 'C09.R3', scope='CTransaction.GetTxid')
+V('C09', 'undecorated-mutable-txout', CORE, '@__make_mutable\nclass CMutableTxOut(CTxOut):', 'class CMutableTxOut(CTxOut):', 'C09.R4')
+V('C09', 'revert-F8a-witness-list', CORE, "object.__setattr__(self, 'vtxinwit', tuple(vtxinwit))", "object.__setattr__(self, 'vtxinwit', vtxinwit)", 'C09.R5')
+V('C09', 'revert-F8a-stack-list', SCRIPT, "object.__setattr__(self, 'stack', tuple(stack))", "object.__setattr__(self, 'stack', stack)", 'C09.R5')
+V('C09', 'revert-F8b-prevout-alias', CORE, "object.__setattr__(self, 'prevout', COutPoint.from_outpoint(prevout))", "object.__setattr__(self, 'prevout', prevout)", 'C09.R5')
+V('C09', 'mutable-from_outpoint-identity', CORE, 'return cls(outpoint.hash, outpoint.n)', 'return outpoint', 'C09.R6', scope='CMutableOutPoint.from_outpoint')
+V('C09', 'mutable-default-vin', CORE, 'def __init__(self, vin=(), vout=(), nLockTime=0, nVersion=1, witness=CTxWitness()):', 'def __init__(self, vin=[], vout=(), nLockTime=0, nVersion=1, witness=CTxWitness()):', 'C09.R7')
+V('C09', 'isinstance-identity-shortcut', CORE, 'if outpoint.__class__ is COutPoint:', 'if isinstance(outpoint, COutPoint):', 'C09.R6', scope='COutPoint.from_outpoint')
+V('C09', 'hash-fills-gethash-slot', SER, "object.__setattr__(self, '_cached__hash__', _cached__hash__)", "object.__setattr__(self, '_cached_GetHash', _cached__hash__)", 'C09.R3')
+V('C09', 'sighash-edits-caller-tx', SCRIPT, 'txtmp = bitcoin.core.CMutableTransaction.from_tx(txTo)', 'txtmp = txTo', 'C09.R8', scope='RawSignatureHash')
+V('C09', 'conditional-immutability', SER, "    def __setattr__(self, name, value):\n        raise AttributeError('Object is immutable')", "    def __setattr__(self, name, value):\n        if not name.startswith('n'):\n            raise AttributeError('Object is immutable')\n        object.__setattr__(self, name, value)", 'C09.R1')
+V('C09', 'decorator-keeps-cached-gethash', CORE, '    cls.GetHash = Serializable.GetHash\n', '', 'C09.R3', scope='__make_mutable')
+V('C09', 'tx-vin-not-converted', CORE, "tuple(CTxIn.from_txin(txin) for txin in vin)", "tuple(vin)", 'C09.R5', scope='CTransaction.__init__')
+V('C09', 'block-vtx-list', CORE, "object.__setattr__(self, 'vtx', tuple(CTransaction.from_tx(tx) for tx in vtx))", "object.__setattr__(self, 'vtx', list(CTransaction.from_tx(tx) for tx in vtx))", 'C09.R5', scope='CBlock.__init__')
+V('C09', 'setattr-backdoor', CORE, "    def is_final(self):\n        return (self.nSequence == 0xffffffff)", "    def is_final(self):\n        return (self.nSequence == 0xffffffff)\n\n    def set_sequence(self, n):\n        object.__setattr__(self, 'nSequence', n)", 'C09.R2')
+V('C09', 'mutable-txin-shares-prevout', CORE, 'prevout = CMutableOutPoint.from_outpoint(txin.prevout)', 'prevout = txin.prevout', 'C09.R6', scope='CMutableTxIn.from_txin')
+V('C09', 'checktransaction-sorts-inputs', CORE, "    if not tx.vin:\n        raise CheckTransactionError(\"CheckTransaction() : vin empty\")", "    if not tx.vin:\n        raise CheckTransactionError(\"CheckTransaction() : vin empty\")\n    tx.vin.sort(key=lambda i: i.prevout.n)", 'C09.R8', scope='CheckTransaction')
+
+# ------------------------------------------------------------------------------------------------ C02
+V('C02', 'txid-hashes-full-serialisation', CORE, "        if self.wit != CTxWitness():\n            txid = Hash(CTransaction(self.vin, self.vout, self.nLockTime,\n                self.nVersion).serialize())\n        else:\n            txid = Hash(self.serialize())", "        txid = Hash(self.serialize())", 'C02.T1', scope='CTransaction.GetTxid')
+V('C02', 'txid-reconstruction-with-witness', CORE, "self.nVersion).serialize())", "self.nVersion, self.wit).serialize())", 'C02.T1', scope='CTransaction.GetTxid')
+V('C02', 'txid-reconstruction-swaps-fields', CORE, "CTransaction(self.vin, self.vout, self.nLockTime,\n                self.nVersion)", "CTransaction(self.vin, self.vout, self.nVersion,\n                self.nLockTime)", 'C02.T1', scope='CTransaction.GetTxid')
+V('C02', 'block-hash-covers-transactions', CORE, "_cached_GetHash = self.get_header().GetHash()", "_cached_GetHash = Hash(self.serialize())", 'C02.T3', scope='CBlock.GetHash')
+V('C02', 'decorator-drops-gethash', CORE, '    cls.GetHash = Serializable.GetHash\n', '', 'C02.T4', scope='__make_mutable')
+V('C02', 'get_header-default-nonce', CORE, "                            nNonce=self.nNonce)", "                            )", 'C02.T3', scope='CBlock.get_header')
+V('C02', 'eq-compares-hash', SER, "return self.serialize() == other.serialize()", "return self.GetHash() == other.GetHash() and type(self) is type(other)", 'C02.T5', scope='Serializable.__eq__')
+V('C02', 'include-witness-default-false', CORE, "def stream_serialize(self, f, include_witness=True):\n        f.write(struct.pack(b\"<i\", self.nVersion))", "def stream_serialize(self, f, include_witness=False):\n        f.write(struct.pack(b\"<i\", self.nVersion))", 'C02.T2')
+V('C02', 'mutable-tx-own-txid', CORE, "    @classmethod\n    def from_tx(cls, tx):\n        \"\"\"Create a fully mutable copy of a pre-existing transaction\"\"\"", "    def GetTxid(self):\n        return Hash(self.serialize())\n\n    @classmethod\n    def from_tx(cls, tx):\n        \"\"\"Create a fully mutable copy of a pre-existing transaction\"\"\"", 'C02.T4')
+V('C02', 'null-witness-ignores-empty-items', SCRIPT, 'return len(self.stack) == 0', 'return not any(self.stack)', 'C02.W1', scope='CScriptWitness.is_null')
+V('C02', 'gethash-single-sha', SER, 'return Hash(self.serialize())', 'return hashlib.sha256(self.serialize()).digest()', 'C02.T2', scope='Serializable.GetHash')
